@@ -26,8 +26,15 @@ KtDig == { <<"oaep", "none">>, <<"oaep", "sha1">>, <<"oaep", "sha256">>, <<"oaep
            <<"oaep11", "none">>, <<"oaep11", "sha1">>, <<"oaep11", "sha256">>, <<"oaep11", "sha512">>,
            <<"pkcs1", "none">> }
 KeyCfgs == {"fieldTLS", "fieldMem", "setter", "bothSame", "bothDiff"}
+\* binding sub-space only: "rotating" is a key store that serves an expired pair on the first fetch and a valid pair
+\* afterwards (the message is encrypted to the expired certificate); second = "staleKey" appends a second
+\* EncryptedAssertion whose detached EncryptedKey names a foreign recipient while its payload is encrypted under the
+\* first one's session key
 Shapes == {"ok", "empty", "lt_nonce", "eq_nonce", "lt_tag", "iv_only", "not_multiple", "pad_zero", "pad_big", "all_zero", "pad_then_zeros", "pad_block_plus",
-           "key_short", "key_garbage", "key_missing", "cipher_badb64"}
+           "key_short", "key_garbage", "key_missing", "cipher_badb64",
+           \* honest encryption of a plaintext that is not an element: comment only, XML declaration only, white space, text
+           "pt_comment", "pt_decl", "pt_space", "pt_text"}
+Honest == {"ok", "pt_comment", "pt_decl", "pt_space", "pt_text"}     \* the ciphertext itself is well formed
 ShapeAlgs == Advertised \cup {"tripledes-cbc", "unknown", "empty"}
 ShapeKts  == {"oaep", "oaep11", "pkcs1", "unknown", "empty"}
 
@@ -37,7 +44,9 @@ Base == [sub |-> "bind", alg |-> "aes128-gcm", kt |-> "oaep", dig |-> "none", de
 
 Bind  == { [Base EXCEPT !.sub = "bind", !.alg = a, !.recipient = r, !.validate = v, !.certform = c, !.rootsigned = rs, !.detached = d] :
              a \in BindAlgs, r \in {"absent", "match", "mismatch"}, v \in BOOLEAN, c \in {"valid", "empty", "garbage"},
-             rs \in BOOLEAN, d \in BOOLEAN }
+             rs \in BOOLEAN, d \in BOOLEAN } \cup
+         { [Base EXCEPT !.sub = "bind", !.alg = a, !.keycfg = "rotating", !.validate = v, !.rootsigned = rs] : a \in BindAlgs, v \in BOOLEAN, rs \in BOOLEAN } \cup
+         { [Base EXCEPT !.sub = "bind", !.alg = a, !.shape = "staleKey", !.recipient = r] : a \in BindAlgs, r \in {"absent", "match"} }
 PadShapes == {"pad_zero", "pad_big", "all_zero", "pad_then_zeros", "pad_block_plus"}
 Shape == { x \in { [Base EXCEPT !.sub = "shape", !.alg = a, !.kt = k, !.shape = s] : a \in ShapeAlgs, k \in ShapeKts, s \in Shapes } :
              (x.shape \in PadShapes => x.alg \notin GCM) }
@@ -53,14 +62,15 @@ CaseOK(cfg, in) == (in.sub # "bind") => cfg.now = 8      \* the clock only matte
 InWindow(now) == 4 <= now /\ now <= 12
 
 \* getDecryptCert (decode_response.go:106-148)
-CertRefused(cfg, in) == in.validate /\ (in.certform # "valid" \/ ~InWindow(cfg.now))
+\* (the rotating store's first pair is expired at every clock position used here)
+CertRefused(cfg, in) == in.validate /\ (in.certform # "valid" \/ ~InWindow(cfg.now) \/ in.keycfg = "rotating")
 \* DecryptSymmetricKey recipient comparison (types/encrypted_key.go:109-121): the shown
 \* certificate must equal the SP's configured certificate octets
-RecipientRefused(in) == in.recipient = "mismatch" \/ (in.recipient = "match" /\ in.certform # "valid")
+RecipientRefused(in) == in.recipient = "mismatch" \/ (in.recipient = "match" /\ in.certform # "valid") \/ in.shape = "staleKey"
 
 DecryptOK(cfg, in) ==
    CASE in.sub = "bind"  -> ~CertRefused(cfg, in) /\ ~RecipientRefused(in)
-     [] in.sub = "shape" -> in.shape = "ok" /\ in.alg \in Advertised /\ in.kt \in {"oaep", "oaep11", "pkcs1"}
+     [] in.sub = "shape" -> in.shape \in Honest /\ in.alg \in Advertised /\ in.kt \in {"oaep", "oaep11", "pkcs1"}
      [] OTHER            -> TRUE
 
 \* the plaintext is GA1 carrying the IdP's own signature, except in the shape
@@ -77,15 +87,15 @@ ModelOut(cfg, in) ==
 \*     twin (validation of the encrypted Response agrees with its plaintext twin in outcome and data)]
 C07_OK(cfg, in, o) ==
    (in.sub = "bind") =>
-      /\ in.recipient = "mismatch" => o.res = "reject"
-      /\ (in.validate /\ (in.certform # "valid" \/ ~InWindow(cfg.now))) => o.res = "reject"
+      /\ (in.recipient = "mismatch" \/ in.shape = "staleKey") => o.res = "reject"
+      /\ (in.validate /\ (in.certform # "valid" \/ ~InWindow(cfg.now) \/ in.keycfg = "rotating")) => o.res = "reject"
 
 C09_OK(cfg, in, o) == o.res \in {"accept", "reject", "na"} /\ o.dec \in {"ok", "wrong", "error", "na"}
 
 C11_OK(cfg, in, o) ==
    /\ (in.sub = "trip") => (o.dec = "ok" /\ o.res = "accept" /\ o.twin)
    /\ (in.sub = "len")  => o.dec = "ok"
-   /\ (in.sub = "bind" /\ DecryptOK(cfg, in) /\ in.certform = "valid") => (o.res = "accept" /\ o.twin)
+   /\ (in.sub = "bind" /\ DecryptOK(cfg, in) /\ in.certform = "valid" /\ in.keycfg # "rotating") => (o.res = "accept" /\ o.twin)
 
 \* C01/C07: nothing reachable without an IdP key is ever accepted
 C01_OK(cfg, in, o) == (in.sub = "shape") => o.res # "accept"
